@@ -56,6 +56,7 @@ struct Ctx {
     keys: Vec<u64>,
     reps: u32,
     hcap: u32,
+    max_tries: usize,
     dev_maglev: bool,
     aff_fine: BTreeMap<String, i64>,
     aff_coarse: BTreeMap<String, i64>,
@@ -113,6 +114,7 @@ fn state_diff(real: &Value, snap: &Value) -> Option<String> {
 
 fn replay(ctx: &mut Ctx, beh: &[Value], variant: u64) -> Result<(), Viol> {
     let mut w = World::new(addr_table(3, variant, 0));
+    w.retry_budget = Some(ctx.max_tries);
     for (i, snap) in beh.iter().enumerate() {
         let step = &snap["step"];
         ctx.stats.steps += 1;
@@ -221,6 +223,7 @@ fn main() {
         keys: vec![rng.next(), rng.next(), rng.next(), rng.next()],
         reps,
         hcap,
+        max_tries: arg("--max-tries", "2").parse().unwrap_or(2),
         dev_maglev: devs.split(',').any(|d| d == "MaglevRebuild"),
         aff_fine: BTreeMap::new(),
         aff_coarse: BTreeMap::new(),
